@@ -45,9 +45,14 @@ def sites(facts, crates, skip_def=lambda d: False, discharged=None):
                                 st = (t.get("gargs") or ["?"])[0]
                                 what = "Index on " + re.sub(r"<.*", "", re.sub(r"^&(mut )?", "", st))[:60]
                             exp = t.get("exp") or ""
-                            m = re.match(r"macro:(\w+)@", exp)
+                            if kind in ("panic", "assert_failed") and re.search(r"(^|>)debug_assert(_eq|_ne)?($|>)", t.get("expc") or ""):
+                                break   # debug_assert!: compiled out of the shipped (release) binary; states an invariant, not a way to crash jaq
+                            m = re.match(r"macro:(?:\$crate::)?(\w+)@", exp)
                             if kind in ("panic", "assert_failed") and m:
                                 what = f"{m.group(1)}!"
+                            if kind == "unwrap":
+                                # unwrap and expect are the same way to panic (replacing one by the other is not a new site)
+                                what = re.sub(r"::(unwrap|expect)$", "::unwrap", re.sub(r"::(unwrap_err|expect_err)$", "::unwrap_err", decl))
                             out.append((src_file(t["sp"]), kind, what, j["def"], t["sp"]))
                             break
                 elif t["k"] == "Assert":
